@@ -475,3 +475,74 @@ Example ex_prime_not_wrapped :
                      (pdiff opsZ (cont_pp [:: 1; 0; -10; 0; 1]%ZZ).2)).2 = Done g ->
                   div_exact (cont_pp [:: 1; 0; -10; 0; 1]%ZZ).2 g = Some q -> prime_not_wrapped q].
 Proof. by split; [exact: prime_not_wrapped_pow7 | exact: prime_not_wrapped_content | exact: prime_not_wrapped_sd]. Qed.
+
+(** * Fifth wave: the run-computed condition "the prime found was not wrapped" is replaced by a condition on the
+    SIZE OF THE INPUT (Refine/W5Primorial.v, W5SmallPrime.v, W5FindPrime.v, W5DetBound.v, W5Sized.v).
+
+    A prime p is rejected by the search only if it divides D = lc(q) * Res(q, q') (q the square-free part): the
+    Bezout identity u q' + v q = Res(q', q) over Z reduces modulo p. D is non-zero, and |D| <= 2^(K + 49 (K + 11))
+    when deg q <= 25 and |q_i| <= 2^K (Leibniz bound of the Sylvester determinant); a divisor q of a has
+    |q_i| <= 2^25 ||a||_1 (Landau-Mignotte). The product of the primes up to 2n is at least 4^n / (2n)^(s+2) for
+    2n < (s+1)^2 (from the Bertrand development), so a non-zero integer of fewer than 2^30 bits cannot be
+    divisible by all primes below 2^31. *)
+From RNT.Refine Require Import BertrandBin W5Primorial W5SmallPrime W5FindPrime W5Sized.
+From mathcomp Require Import matrix mxpoly.
+
+(** ** [P] primorial_lower_bound: 4^n <= (2n)^(s+2) * prod_{p <= 2n, p prime} p whenever 2n < (s+1)^2 *)
+Theorem primorial_lower_bound (n s : nat) : (0 < n)%N -> (n.*2 < s.+1 ^ 2)%N ->
+  (4 ^ n <= n.*2 ^ s.+2 * primorial n.*2)%N.
+Proof. exact (@W5Primorial.primorial_lower n s). Qed.
+Example ex_primorial : primorial 10 = 210%N /\ (4 ^ 5 <= 10 ^ 5 * 210)%N.
+Proof. by rewrite /primorial unlock. Qed.
+
+(** ** [P] small_prime_exists: a non-zero integer D with log2 |D| < 2^30 has a prime p < 2^31 not dividing it *)
+Theorem small_prime_exists (D : Z) : D <> 0%ZZ -> (Z.log2 (Z.abs D) < 1073741824)%ZZ ->
+  exists p, [/\ Znumtheory.prime p, (p < 2147483648)%ZZ & ~ (p | D)%ZZ].
+Proof. exact (@W5SmallPrime.exists_prime_below_2_31 D). Qed.
+
+(** ** [P] find_prime_small: for a canonical non-constant q, every prime p0 < 2^31 not dividing
+    lc(q) * Res(q, q') bounds the search: a returned pair (p, pu) has p = pu (no wrap by [as i32]), p prime,
+    p <= p0. (A prime is rejected only if it divides lc(q) or the reduction of q is not square-free.) *)
+Theorem find_prime_small (q : seq Z) (p pu p0 : Z) : canonZ q -> (1 < size q)%N ->
+  Znumtheory.prime p0 -> (p0 < 2147483648)%ZZ ->
+  ~ (p0 | lead_coef (Poly q) * mxpoly.resultant (Poly q)^`() (Poly q))%ZZ ->
+  find_prime (prime_fuel q) q 2 = Done (p, pu) ->
+  [/\ p = pu, Znumtheory.prime p & (p <= p0)%ZZ].
+Proof. exact (@W5FindPrime.find_prime_small q p pu p0). Qed.
+(* x^4 - 10x^2 + 1: lc * Res(q, q') = 147456 = 2^14 * 3^2; the prime 5 does not divide it, the search returns 5 *)
+Example ex_find_prime_small :
+  let q := [:: 1; 0; -10; 0; 1]%ZZ in
+  find_prime (prime_fuel q) q 2 = Done (5%ZZ, 5%ZZ) /\ (147456 mod 5)%ZZ = 1%ZZ.
+Proof. by split; vm_compute. Qed.
+
+(** ** [P] prime_not_wrapped_sized: for a canonical square-free non-constant q dividing (in Z[x]) a polynomial a
+    of degree <= 25 whose coefficients have at most 2^24 bits, the prime found is below 2^31 and not wrapped *)
+Theorem prime_not_wrapped_sized (a q : seq Z) (v : {poly Z}) : canonZ q -> (1 < size q)%N ->
+  separable_poly (Poly q) -> Poly a = Poly q * v -> Poly a != 0 -> (size (Poly a) <= 26)%N ->
+  (forall i, (Z.log2 (Z.abs (Poly a)`_i) < 16777216)%ZZ) ->
+  forall p pu, find_prime (prime_fuel q) q 2 = Done (p, pu) ->
+  [/\ p = pu, Znumtheory.prime p & (p < 2147483648)%ZZ].
+Proof. exact (@W5Sized.prime_not_wrapped_of_size a q v). Qed.
+
+(** ** [P] factorize_correct_sized: for EVERY canonical input of degree <= 25 (the recombination limit of the
+    property) whose coefficients have at most 2^24 = 16777216 bits (log2 |a_i| < 2^24), every completed run, for
+    every draw stream, returns the irreducible factorisation: the final cofactor is 1, a = c * prod f_i^e_i, and
+    every f_i is irreducible over Q. No run-computed condition. Together with the unconditional
+    [content_is_signed_content], [factors_primitive_positive], [multiplicities_positive],
+    [multiplicities_exact_input], [factors_pairwise_distinct] this is the whole property C07 for such inputs. *)
+Theorem factorize_correct_sized md (a : seq Z) r c l cof r' : canonZ a -> (size a <= 26)%N ->
+  (forall x, x \in a -> (Z.log2 (Z.abs x) < 16777216)%ZZ) ->
+  factorize_full md a r = Done (c, l, cof, r') ->
+  [/\ cof = [:: 1%ZZ], Poly a = c *: fprod l
+    & forall fe, fe \in l -> irreducible_poly (Poly fe.1)].
+Proof. exact (@W5Sized.factorize_full_sized md a r c l cof r'). Qed.
+(* the hypotheses hold for x^4 - 10x^2 + 1 and -6(x^2+x+1)(2x^2+1), whose complete runs are the Examples above *)
+Example ex_sized_hyp :
+  let a := [:: 1; 0; -10; 0; 1]%ZZ in let b := [:: -6; -6; -18; -12; -12]%ZZ in
+  [/\ canonZ a, (size a <= 26)%N & forall x, x \in a -> (Z.log2 (Z.abs x) < 16777216)%ZZ] /\
+  [/\ canonZ b, (size b <= 26)%N & forall x, x \in b -> (Z.log2 (Z.abs x) < 16777216)%ZZ].
+Proof.
+have h (s : seq Z) : all (fun x => Z.ltb (Z.log2 (Z.abs x)) 16777216) s ->
+  forall x, x \in s -> (Z.log2 (Z.abs x) < 16777216)%ZZ by move=> /allP hs x /hs /Z.ltb_lt.
+by split; split=> //; exact: h.
+Qed.
